@@ -85,7 +85,11 @@ pub fn decl_text(d: &Value, r: &mut Rng, vary: bool) -> String {
 pub struct Vary { pub on: bool, pub drop_semi: bool, pub double_semi: bool, pub junk: bool, pub unknown_props: bool }
 pub fn sheet_text(sheet: &Value, r: &mut Rng, v: &Vary) -> String {
     let mut s = String::new();
+    // the sheet wrapped in an HTML comment (ignored between statements), or stray <!-- / --> between rules
+    let cdo = v.on && r.chance(1, 8);
+    if cdo { s.push_str(*r.pick(&["<!--\n", "<!-- ", "<!---->"])); }
     for rule in sheet.as_array().unwrap() {
+        if v.on && r.chance(1, 30) { s.push_str(*r.pick(&["<!-- ", "--> ", "<!-- --> "])); }
         if v.junk && r.chance(1, 3) {
             s.push_str(*r.pick(&["@import url(x.css);\n", "@media print { p { color: red } }\n", "@charset \"utf-8\";", "q:hover { color: red }\n", "a[href] { color: blue; }\n", "p::first-line { color: red }\n",
                               "li:not(.x) b { color: red }\n", "ul:is(.x,.y) p { color: red; }\n", "li:nth-of-type(2) em { color: red }\n", "@include wrap(40) p { color: red }\n",
@@ -113,6 +117,7 @@ pub fn sheet_text(sheet: &Value, r: &mut Rng, v: &Vary) -> String {
         s.push_str(if v.on { *r.pick(&["}", " }", "\n}\n", " } "]) } else { " }\n" });
         if v.on && r.chance(1, 4) { s.push_str(comment(r)); s.push(' '); }
     }
+    if cdo { s.push_str(*r.pick(&["-->", "\n-->\n", " --> "])); }
     s
 }
 pub fn content_decl(text: &str, imp: bool) -> Value { json!({"prop": "content", "val": text.chars().map(|c| json!([c as u32, 1])).collect::<Vec<_>>(), "imp": imp}) }
